@@ -40,7 +40,9 @@ const (
 	// VCL limitations
 	MaxCustomVCLFileSize = 1 * MB
 	MaxVarnishRestarts   = 3
-	MaxLogLineSize       = 16 * KB
+	// Nesting of include statements; a module that includes itself would otherwise be resolved forever
+	MaxIncludeDepth = 100
+	MaxLogLineSize  = 16 * KB
 
 	// MaxSubroutineCallTree is the ceiling Fastly enforces on the fully inlined
 	// subroutine call graph. The cost of a subroutine is the sum, over each of
